@@ -292,6 +292,11 @@ fn with_trivia(rng: &mut Rng, text: &str) -> String {
                 out.push_str("\t");
                 out.push_str(line);
             }
+            4 if line.trim().len() > 3 => {
+                // a form feed (layout in IEC 61131-3, not a line terminator for an editor)
+                out.push('\u{c}');
+                out.push_str(line);
+            }
             _ => out.push_str(line),
         }
     }
@@ -704,22 +709,29 @@ fn check_on_contents(t: &LspTrace, model: &Model, seed: u64) -> Result<(bool, Ve
     for (name, text) in &contents {
         std::fs::write(chk.join(name), text).map_err(|e| e.to_string())?;
     }
-    let hooks = SimHooks::new(root(), mix(&[seed, 78]), vec![]);
-    crate::seam::capture_begin();
     let args = vec![chk.clone()];
-    let res = run_simulated_process(seed, Some(hooks.clone()), move || ironplcc::cli::check(&args, false));
-    let log = hooks.take_log();
-    let _ = std::fs::remove_dir_all(&chk);
-    let mut diags = vec![];
-    for (with_project, records) in &log.diag_calls {
-        for r in records {
-            let conv = |l: &ironplcc::verif::LabelRecord| crate::world::LabelRec { file: l.file.clone(), start: l.start, end: l.end, message: l.message.clone(), text_len: l.text_len, on_char_boundary: l.on_char_boundary };
-            diags.push(DiagRec { code: r.code.clone(), primary: conv(&r.primary), secondary: r.secondary.iter().map(conv).collect(), with_project: *with_project });
+    // like every simulated command-line process: a forked child, entry point on a fresh thread
+    let forked: Result<Result<(bool, Vec<DiagRec>), String>, String> = crate::seam::run_forked(move || {
+        let hooks = SimHooks::new(root(), mix(&[seed, 78]), vec![]);
+        crate::seam::capture_begin();
+        let res = run_simulated_process(seed, Some(hooks.clone()), move || ironplcc::cli::check(&args, false));
+        let log = hooks.take_log();
+        let mut diags = vec![];
+        for (with_project, records) in &log.diag_calls {
+            for r in records {
+                let conv = |l: &ironplcc::verif::LabelRecord| crate::world::LabelRec { file: l.file.clone(), start: l.start, end: l.end, message: l.message.clone(), text_len: l.text_len, on_char_boundary: l.on_char_boundary };
+                diags.push(DiagRec { code: r.code.clone(), primary: conv(&r.primary), secondary: r.secondary.iter().map(conv).collect(), with_project: *with_project });
+            }
         }
-    }
-    match res {
-        Ok(r) => Ok((r.is_ok(), diags)),
-        Err(p) => Err(format!("check panicked: {p}")),
+        match res {
+            Ok(r) => Ok((r.is_ok(), diags)),
+            Err(p) => Err(format!("check panicked: {p}")),
+        }
+    });
+    let _ = std::fs::remove_dir_all(&chk);
+    match forked {
+        Ok(r) => r,
+        Err(why) => Err(format!("check crashed: {why}")),
     }
 }
 
